@@ -65,7 +65,8 @@ def k_guard(reply: str, interactive: bool) -> str:
 DAYS = [None, 0, 1, 7]
 TDOPT = [None, '/v/.Trash-1000', '/x/custom']
 REPLIES = ['y', 'Y', 'yes', 'n', 'N', '', ' y', 'no', 'ok', None, 'Yikes', '\ty', '1']
-INTER = ['-i', 'tty', '-i+tty', 'tty+-f', 'none', 'tty-stdout-piped', 'tty-stdin-piped']
+INTER = ['-i', 'tty', '-i+tty', 'tty+-f', 'none', 'tty-stdout-piped', 'tty-stdin-piped', '-f then -i', '-i then -f', '-fi', '--interactive']
+NINTER = len(INTER)
 NOW = '2020-06-15T12:00:00'
 
 
@@ -125,10 +126,14 @@ def _inter(inter, reply, days):
         world = make_world()
         mode = INTER[inter]
         args = []
-        if '-i' in mode:
-            args.append('-i')
-        if '-f' in mode:
-            args.append('-f')
+        if mode in ('-f then -i', '-i then -f', '-fi', '--interactive'):
+            # the last of -f / -i decides (as for rm); the long spelling is the same option
+            args += {'-f then -i': ['-f', '-i'], '-i then -f': ['-i', '-f'], '-fi': ['-fi'], '--interactive': ['--interactive']}[mode]
+        else:
+            if '-i' in mode:
+                args.append('-i')
+            if '-f' in mode:
+                args.append('-f')
         if DAYS[days] is not None:
             args.append(str(DAYS[days]))
         rp = REPLIES[reply]
@@ -141,6 +146,10 @@ def _inter(inter, reply, days):
         m, res = scen.run_model(world, [{'snap': '/'}, C('empty', args, scen.env(), stdin=stdin, now=NOW, cwd='/v', tty=tty), {'snap': '/'}])
         before, r, after = res
         asks = ('-i' in mode or (tty is True) or (tty and 0 in tty)) and '-f' not in mode
+        if mode in ('-f then -i', '-fi', '--interactive'):
+            asks = True
+        elif mode == '-i then -f':
+            asks = False
         consent = (not asks) or (rp is not None and rp[:1] in ('y', 'Y'))
         label = 'mode=%s:reply=%r' % (mode, rp)
         if not consent:
@@ -164,10 +173,10 @@ def w_dry(days: int, td: int, verbose: int) -> str:
 
 def w_inter(inter: int, reply: int, days: int) -> str:
     """
-    pre: 0 <= inter < 7 and 0 <= reply < 13 and 0 <= days < 4
+    pre: 0 <= inter < NINTER and 0 <= reply < 13 and 0 <= days < 4
     post: _ == ''
     """
-    return _inter(rt.sel(inter, 7), rt.sel(reply, 13), rt.sel(days, 4))
+    return _inter(rt.sel(inter, NINTER), rt.sel(reply, 13), rt.sel(days, 4))
 
 
 def obligations(tier):
@@ -181,5 +190,5 @@ def obligations(tier):
         CH('W_dry_run_vs_real', MOD, 'w_dry', timeout=300, engine='W', regime='selector', encodes=K.EMPTY_FUNCS, stubs=K.STUBS,
            bounds='4 DAYS x 3 --trash-dir x 3 -v over a trash with 5 entries in 4 dirs, orphans, lone info'),
         CH('W_interactive', MOD, 'w_inter', timeout=600, engine='W', regime='selector', encodes=K.EMPTY_FUNCS, stubs=K.STUBS,
-           bounds='7 interactive modes (-i, tty, both, tty with -f, none, terminal with stdout piped, terminal with stdin piped) x 13 replies incl. empty and EOF x 4 DAYS'),
+           bounds='11 interactive modes (-i, tty, both, tty with -f, none, terminal with stdout piped, terminal with stdin piped) x 13 replies incl. empty and EOF x 4 DAYS'),
     ]
